@@ -396,7 +396,7 @@ theorem decode_tabAppend_append (f : Form) (rest : Content) (h : storable f = tr
   unfold decode
   have : joinTab f ++ [NL] ++ rest = joinTab f ++ NL :: rest := by simp
   rw [this, lines_append_nl _ _ (storable_spec f h).noNL]
-  simp [List.filterMap_cons, decodeLine_joinTab f h]
+  simp [decodeLine_joinTab f h]
 
 theorem decode_append (x y : Content) (h : Terminated x) : decode (x ++ y) = decode x ++ decode y := by
   unfold decode
@@ -671,5 +671,530 @@ theorem crash_append (w : World) (hinv : Inv w) (f : Form) (hf : storable f = tr
       rw [e]
       refine ⟨termFS_set_hist _ _ (terminated_append hc (terminated_tabAppend f)), ?_⟩
       simp [load_set_hist, decode_append c _ hc, decode_tabAppend f hf, hload]
+
+/-! ## one operation, any crash point -/
+
+/-- the forms the property quantifies over for `Add`, minus those the encoding cannot hold: a form is
+either skipped as empty or satisfies the guard `storable` -/
+def OpOK : Op → Prop
+  | .add f => isEmptyForm f = true ∨ storable f = true
+  | _ => True
+
+def isClear : Op → Prop
+  | .clear _ _ => True
+  | _ => False
+
+theorem crashAt_nil (k : Nat) (fs : FS) : crashAt k [] fs = fs := by simp [crashAt]
+
+theorem op_crash (w : World) (hinv : Inv w) (o : Op) (ho : OpOK o) (k : Nat) :
+    TermFS (crashAt k (perform fixed w.mem o).2 w.fs) ∧
+    (load (crashAt k (perform fixed w.mem o).2 w.fs) = w.mem.forms ∨
+     load (crashAt k (perform fixed w.mem o).2 w.fs) = (perform fixed w.mem o).1.forms ∨
+     (isClear o ∧ load (crashAt k (perform fixed w.mem o).2 w.fs) <+: (perform fixed w.mem o).1.forms)) ∧
+    ((perform fixed w.mem o).2.length ≤ k →
+      load (crashAt k (perform fixed w.mem o).2 w.fs) = (perform fixed w.mem o).1.forms) := by
+  cases o with
+  | setLimit n =>
+    simp only [perform, crashAt_nil]
+    exact ⟨hinv.term, Or.inl hinv.sync, fun _ => hinv.sync⟩
+  | clear a b =>
+    obtain ⟨ht, hl⟩ := crash_clear fixed w hinv a b k
+    refine ⟨ht, ?_, ?_⟩
+    · rw [hl]
+      by_cases hk : k = 0
+      · simp [hk]
+      · simp only [hk, if_false]
+        exact Or.inr (Or.inr ⟨trivial, by simpa [perform] using List.take_prefix _ _⟩)
+    · intro hlen
+      rw [hl]
+      simp only [perform, List.length_cons, List.length_append, writeAll_length, List.length_nil] at hlen
+      have hk : k ≠ 0 := by omega
+      simp only [hk, if_false, perform]
+      exact List.take_of_length_le (by omega)
+  | add f =>
+    simp only [OpOK] at ho
+    by_cases h1 : w.mem.limit = 0 ∨ isEmptyForm f = true
+    · simp only [perform, if_pos h1, crashAt_nil]
+      exact ⟨hinv.term, Or.inl hinv.sync, fun _ => hinv.sync⟩
+    · have hf : storable f = true := by
+        rcases ho with h | h
+        · exact absurd (Or.inr h) h1
+        · exact h
+      by_cases h2 : w.mem.forms.getLast? = some f
+      · simp only [perform, if_neg h1, if_pos h2, crashAt_nil]
+        exact ⟨hinv.term, Or.inl hinv.sync, fun _ => hinv.sync⟩
+      · by_cases h3 : w.mem.max ≤ (w.mem.forms ++ [f]).length
+        · simp only [perform, if_neg h1, if_neg h2, if_pos h3, openTmp, fixed, if_true]
+          have hk : ∀ g ∈ keepRecent w.mem.limit (w.mem.forms ++ [f]), storable g = true := by
+            intro g hg
+            have := keepRecent_mem _ _ g hg
+            rcases List.mem_append.mp this with h | h
+            · exact hinv.storable g h
+            · simp at h; subst h; exact hf
+          obtain ⟨ht, hl⟩ := crash_compact w hinv _ hk k
+          refine ⟨ht, ?_, ?_⟩
+          · rw [hl]
+            by_cases hk3 : k < (keepRecent w.mem.limit (w.mem.forms ++ [f])).length + 3
+            · simp [hk3]
+            · simp [hk3]
+          · intro hlen
+            rw [hl]
+            simp only [List.length_cons, List.length_append, writeAll_length, List.length_nil] at hlen
+            have : ¬ k < (keepRecent w.mem.limit (w.mem.forms ++ [f])).length + 3 := by omega
+            simp [this]
+        · simp only [perform, if_neg h1, if_neg h2, if_neg h3]
+          obtain ⟨ht, hl⟩ := crash_append w hinv f hf k
+          refine ⟨ht, ?_, ?_⟩
+          · rw [hl]
+            by_cases hk2 : k < 2
+            · simp [hk2]
+            · simp [hk2]
+          · intro hlen
+            rw [hl]
+            simp only [List.length_cons, List.length_nil] at hlen
+            have : ¬ k < 2 := by omega
+            simp [this]
+
+theorem crashAt_all (steps : List Step) (fs : FS) : crashAt steps.length steps fs = runSteps fs steps := by
+  simp [crashAt]
+
+/-- a completed operation keeps memory and files in agreement -/
+theorem op_inv (w : World) (hinv : Inv w) (o : Op) (ho : OpOK o) : Inv (w.apply fixed (.op o)) := by
+  obtain ⟨ht, _, hc⟩ := op_crash w hinv o ho (perform fixed w.mem o).2.length
+  rw [crashAt_all] at ht hc
+  exact ⟨ht, hc (Nat.le_refl _)⟩
+
+def EventOK : Event → Prop
+  | .op o => OpOK o
+  | .crash o _ _ => OpOK o
+  | .restart _ => True
+
+theorem event_inv (w : World) (hinv : Inv w) (e : Event) (he : EventOK e) : Inv (w.apply fixed e) := by
+  cases e with
+  | op o => exact op_inv w hinv o he
+  | crash o k limit => exact boot_inv _ _ (op_crash w hinv o he k).1
+  | restart limit => exact boot_inv _ _ hinv.term
+
+theorem run_inv (evs : List Event) : ∀ (w : World), Inv w → (∀ e ∈ evs, EventOK e) → Inv (w.run fixed evs) := by
+  induction evs with
+  | nil => intro w h _; exact h
+  | cons e evs ih =>
+    intro w h hall
+    have h1 := event_inv w h e (hall e (by simp))
+    have := ih (w.apply fixed e) h1 (fun e' he' => hall e' (by simp [he']))
+    simpa [World.run] using this
+
+/-! ## in order, nothing invented, nothing duplicated: sublist of what was entered -/
+
+def newForms : Op → List Form
+  | .add f => [f]
+  | _ => []
+
+def enteredBy : Event → List Form
+  | .op o => newForms o
+  | .crash o _ _ => newForms o
+  | .restart _ => []
+
+theorem entered_cons (e : Event) (es : List Event) : entered (e :: es) = enteredBy e ++ entered es := by
+  cases e with
+  | op o => cases o <;> simp [entered, enteredBy, newForms]
+  | crash o k l => cases o <;> simp [entered, enteredBy, newForms]
+  | restart l => simp [entered, enteredBy]
+
+theorem keepRecent_suffix (limit : Nat) (all : List Form) : keepRecent limit all <:+ all :=
+  List.drop_suffix _ _
+
+/-- an effective `Add` leaves the most recent forms, in order, ending with the new one, at most
+`max` of them; otherwise nothing changes -/
+theorem perform_add (cfg : Cfg) (h : Hist) (f : Form) :
+    (perform cfg h (.add f)).1.forms = h.forms ∨
+    ((perform cfg h (.add f)).1.forms <:+ h.forms ++ [f] ∧
+     (perform cfg h (.add f)).1.forms.getLast? = some f ∧
+     (perform cfg h (.add f)).1.forms.length ≤ h.max ∧
+     h.forms.getLast? ≠ some f) := by
+  by_cases h1 : h.limit = 0 ∨ isEmptyForm f = true
+  · simp [perform, h1]
+  · by_cases h2 : h.forms.getLast? = some f
+    · simp [perform, h1, h2]
+    · have hl : h.limit ≠ 0 := fun e => h1 (Or.inl e)
+      by_cases h3 : h.max ≤ (h.forms ++ [f]).length
+      · right
+        simp only [perform, if_neg h1, if_neg h2, if_pos h3]
+        refine ⟨keepRecent_suffix _ _, ?_, ?_, h2⟩
+        · unfold keepRecent
+          rw [List.getLast?_drop]
+          have : ¬ (h.forms ++ [f]).length ≤ (h.forms ++ [f]).length - h.limit := by
+            simp only [List.length_append, List.length_cons, List.length_nil]; omega
+          simp only [List.length_append, List.length_cons, List.length_nil] at this
+          simp; omega
+        · unfold keepRecent Hist.max
+          simp only [List.length_drop, List.length_append, List.length_cons, List.length_nil]
+          omega
+      · right
+        simp only [perform, if_neg h1, if_neg h2, if_neg h3]
+        refine ⟨List.suffix_refl _, by simp, ?_, h2⟩
+        omega
+
+theorem perform_sublist (cfg : Cfg) (h : Hist) (o : Op) :
+    ((perform cfg h o).1.forms).Sublist (h.forms ++ newForms o) := by
+  cases o with
+  | setLimit n => simp [perform, newForms]
+  | clear a b => simpa [perform, newForms] using clearRange_sublist h.forms a b
+  | add f =>
+    rcases perform_add cfg h f with e | ⟨hs, _⟩
+    · rw [e]; simp [newForms]
+    · exact hs.sublist
+
+theorem event_sublist (w : World) (hinv : Inv w) (e : Event) (he : EventOK e) :
+    ((w.apply fixed e).mem.forms).Sublist (w.mem.forms ++ enteredBy e) := by
+  cases e with
+  | op o => exact perform_sublist fixed w.mem o
+  | restart limit =>
+    simp only [World.apply, boot, enteredBy, List.append_nil]
+    rw [hinv.sync]; exact List.Sublist.refl _
+  | crash o k limit =>
+    simp only [World.apply, boot, enteredBy]
+    obtain ⟨_, hl, _⟩ := op_crash w hinv o he k
+    rcases hl with h | h | ⟨_, h⟩
+    · rw [h]; simp
+    · rw [h]; exact perform_sublist fixed w.mem o
+    · exact h.sublist.trans (perform_sublist fixed w.mem o)
+
+theorem run_sublist (evs : List Event) : ∀ (w : World), Inv w → (∀ e ∈ evs, EventOK e) →
+    ((w.run fixed evs).mem.forms).Sublist (w.mem.forms ++ entered evs) := by
+  induction evs with
+  | nil => intro w _ _; simp [World.run, entered]
+  | cons e evs ih =>
+    intro w h hall
+    have he := hall e (by simp)
+    have h1 := event_inv w h e he
+    have h2 := ih (w.apply fixed e) h1 (fun e' he' => hall e' (by simp [he']))
+    have h3 := event_sublist w h e he
+    rw [entered_cons, ← List.append_assoc]
+    have h4 : ((w.apply fixed e).mem.forms ++ entered evs).Sublist ((w.mem.forms ++ enteredBy e) ++ entered evs) :=
+      List.Sublist.append h3 (List.Sublist.refl _)
+    have : (World.run fixed w (e :: evs)) = World.run fixed (w.apply fixed e) evs := by simp [World.run]
+    rw [this]
+    exact h2.trans h4
+
+/-! ## bounded -/
+
+theorem perform_length (cfg : Cfg) (h : Hist) (o : Op) (B : Nat) (hB : h.forms.length ≤ B) (hm : h.max ≤ B) :
+    (perform cfg h o).1.forms.length ≤ B := by
+  cases o with
+  | setLimit n => simpa [perform] using hB
+  | clear a b => exact Nat.le_trans (by simpa [perform] using clearRange_length_le h.forms a b) hB
+  | add f =>
+    rcases perform_add cfg h f with e | ⟨_, _, hl, _⟩
+    · rw [e]; exact hB
+    · exact Nat.le_trans hl hm
+
+def limitOf : Event → Option Nat
+  | .op (.setLimit n) => some n
+  | .op _ => none
+  | .crash _ _ l => some l
+  | .restart l => some l
+
+/-- every limit the events put in effect has `limit + limit/10 ≤ B` -/
+def LimitsBelow (B : Nat) (evs : List Event) : Prop := ∀ e ∈ evs, ∀ n, limitOf e = some n → n + n / 10 ≤ B
+
+structure Bounded (B : Nat) (w : World) : Prop where
+  len : w.mem.forms.length ≤ B
+  max : w.mem.max ≤ B
+
+theorem perform_limit (cfg : Cfg) (h : Hist) (o : Op) :
+    (perform cfg h o).1.limit = match o with | .setLimit n => n | _ => h.limit := by
+  cases o with
+  | setLimit n => rfl
+  | clear a b => rfl
+  | add f =>
+    simp only [perform]
+    split
+    · rfl
+    · split
+      · rfl
+      · split <;> rfl
+
+theorem event_bounded (B : Nat) (w : World) (hinv : Inv w) (hb : Bounded B w) (e : Event) (he : EventOK e)
+    (hl : ∀ n, limitOf e = some n → n + n / 10 ≤ B) : Bounded B (w.apply fixed e) := by
+  cases e with
+  | op o =>
+    refine ⟨perform_length fixed w.mem o B hb.len hb.max, ?_⟩
+    simp only [World.apply, Hist.max, perform_limit]
+    cases o with
+    | setLimit n => exact hl n rfl
+    | clear a b => exact hb.max
+    | add f => exact hb.max
+  | restart limit =>
+    refine ⟨?_, hl limit rfl⟩
+    simp only [World.apply, boot]; rw [hinv.sync]; exact hb.len
+  | crash o k limit =>
+    refine ⟨?_, hl limit rfl⟩
+    simp only [World.apply, boot]
+    obtain ⟨_, h, _⟩ := op_crash w hinv o he k
+    have hp := perform_length fixed w.mem o B hb.len hb.max
+    rcases h with h | h | ⟨_, h⟩
+    · rw [h]; exact hb.len
+    · rw [h]; exact hp
+    · exact Nat.le_trans h.length_le hp
+
+theorem run_bounded (B : Nat) (evs : List Event) : ∀ (w : World), Inv w → Bounded B w →
+    (∀ e ∈ evs, EventOK e) → LimitsBelow B evs → Bounded B (w.run fixed evs) := by
+  induction evs with
+  | nil => intro w _ hb _ _; exact hb
+  | cons e evs ih =>
+    intro w h hb hall hlim
+    have he := hall e (by simp)
+    have h1 := event_inv w h e he
+    have hb1 := event_bounded B w h hb e he (hlim e (by simp))
+    have := ih (w.apply fixed e) h1 hb1 (fun e' he' => hall e' (by simp [he']))
+      (fun e' he' => hlim e' (by simp [he']))
+    simpa [World.run] using this
+
+/-! ## no adjacent duplicates -/
+
+/-- no form is immediately followed by an equal one -/
+def NoAdj : List Form → Prop
+  | a :: b :: r => a ≠ b ∧ NoAdj (b :: r)
+  | _ => True
+
+theorem noAdj_tail {a : Form} {l : List Form} (h : NoAdj (a :: l)) : NoAdj l := by
+  cases l with
+  | nil => trivial
+  | cons b r => exact h.2
+
+theorem noAdj_append_right : ∀ (a b : List Form), NoAdj (a ++ b) → NoAdj b
+  | [], b, h => h
+  | x :: a, b, h => noAdj_append_right a b (noAdj_tail h)
+
+theorem noAdj_append_left : ∀ (a b : List Form), NoAdj (a ++ b) → NoAdj a
+  | [], _, _ => trivial
+  | [x], _, _ => trivial
+  | x :: y :: a, b, h => ⟨h.1, noAdj_append_left (y :: a) b h.2⟩
+
+theorem noAdj_snoc : ∀ (l : List Form) (f : Form), NoAdj l → l.getLast? ≠ some f → NoAdj (l ++ [f])
+  | [], _, _, _ => trivial
+  | [x], f, _, h => ⟨fun e => h (by simp [e]), trivial⟩
+  | x :: y :: r, f, hn, h =>
+    ⟨hn.1, noAdj_snoc (y :: r) f hn.2 (by simpa [List.getLast?_cons_cons] using h)⟩
+
+theorem noAdj_prefix {p l : List Form} (hp : p <+: l) (h : NoAdj l) : NoAdj p := by
+  obtain ⟨t, rfl⟩ := hp; exact noAdj_append_left p t h
+
+theorem noAdj_suffix {p l : List Form} (hp : p <:+ l) (h : NoAdj l) : NoAdj p := by
+  obtain ⟨t, rfl⟩ := hp; exact noAdj_append_right t p h
+
+/-- clears that remove the most recent forms (`start ≤ 0`) or everything older than `start`
+(`end < 0`) — what `(clear-history)` and `(clear-history :end n)` / `(clear-history :start n)` do -/
+def OuterClear : Op → Prop
+  | .clear a b => a ≤ 0 ∨ b < 0
+  | _ => True
+
+theorem clearRange_outer (forms : List Form) (a b : Int) (h : a ≤ 0 ∨ b < 0) :
+    clearRange forms a b <+: forms ∨ clearRange forms a b <:+ forms := by
+  unfold clearRange
+  simp only
+  by_cases h0 : forms.length = 0 ∨ (forms.length : Int) ≤ a
+  · rw [if_pos h0]; exact Or.inl (List.prefix_refl _)
+  · rw [if_neg h0]
+    by_cases hse : a.toNat ≤ (if b < 0 ∨ (forms.length : Int) ≤ b then forms.length - 1 else b.toNat)
+    · rw [if_pos hse]
+      rcases h with h | h
+      · left
+        have : a.toNat = 0 := by omega
+        rw [this]
+        simp only [Nat.sub_zero, List.drop_length, List.append_nil]
+        exact List.take_prefix _ _
+      · right
+        have hb : (b < 0 ∨ (forms.length : Int) ≤ b) := Or.inl h
+        rw [if_pos hb]
+        have : forms.length - 1 - (forms.length - 1) = 0 := by omega
+        rw [this]
+        simp only [List.take_zero, List.nil_append]
+        exact List.drop_suffix _ _
+    · rw [if_neg hse]; exact Or.inl (List.prefix_refl _)
+
+theorem perform_noAdj (cfg : Cfg) (h : Hist) (o : Op) (ho : OuterClear o) (hn : NoAdj h.forms) :
+    NoAdj (perform cfg h o).1.forms := by
+  cases o with
+  | setLimit n => exact hn
+  | clear a b =>
+    simp only [perform]
+    rcases clearRange_outer h.forms a b ho with hp | hs
+    · exact noAdj_prefix hp hn
+    · exact noAdj_suffix hs hn
+  | add f =>
+    rcases perform_add cfg h f with e | ⟨hs, _, _, hne⟩
+    · rw [e]; exact hn
+    · exact noAdj_suffix hs (noAdj_snoc h.forms f hn hne)
+
+def OuterClears : Event → Prop
+  | .op o => OuterClear o
+  | .crash o _ _ => OuterClear o
+  | .restart _ => True
+
+theorem event_noAdj (w : World) (hinv : Inv w) (e : Event) (he : EventOK e) (ho : OuterClears e)
+    (hn : NoAdj w.mem.forms) : NoAdj (w.apply fixed e).mem.forms := by
+  cases e with
+  | op o => exact perform_noAdj fixed w.mem o ho hn
+  | restart limit => simp only [World.apply, boot]; rw [hinv.sync]; exact hn
+  | crash o k limit =>
+    simp only [World.apply, boot]
+    obtain ⟨_, h, _⟩ := op_crash w hinv o he k
+    have hp := perform_noAdj fixed w.mem o ho hn
+    rcases h with h | h | ⟨_, h⟩
+    · rw [h]; exact hn
+    · rw [h]; exact hp
+    · exact noAdj_prefix h hp
+
+theorem run_noAdj (evs : List Event) : ∀ (w : World), Inv w → NoAdj w.mem.forms →
+    (∀ e ∈ evs, EventOK e) → (∀ e ∈ evs, OuterClears e) → NoAdj (w.run fixed evs).mem.forms := by
+  induction evs with
+  | nil => intro w _ hn _ _; exact hn
+  | cons e evs ih =>
+    intro w h hn hall hout
+    have he := hall e (by simp)
+    have h1 := event_inv w h e he
+    have hn1 := event_noAdj w h e he (hout e (by simp)) hn
+    have := ih (w.apply fixed e) h1 hn1 (fun e' he' => hall e' (by simp [he']))
+      (fun e' he' => hout e' (by simp [he']))
+    simpa [World.run] using this
+
+/-! ## stash: the expanded encoding -/
+
+structure StashSpec (f : Form) : Prop where
+  ne : f ≠ []
+  lineNe : ∀ l ∈ f, l ≠ []
+  noTab : ∀ l ∈ f, TAB ∉ l
+  noNL : ∀ l ∈ f, NL ∉ l
+  whole : full (expand f) = some true
+  proper : ∀ k, k < f.length → k ≠ 0 → full (expand (f.take k)) = some false
+
+theorem stashOK_spec (f : Form) (h : stashOK f = true) : StashSpec f := by
+  unfold stashOK at h
+  simp only [Bool.and_eq_true, List.all_eq_true, List.mem_range] at h
+  obtain ⟨⟨⟨h1, h2⟩, h3⟩, h4⟩ := h
+  refine ⟨?_, ?_, ?_, ?_, ?_, ?_⟩
+  · intro e; subst e; simp at h2
+  · intro l hl e; have := (h1 l hl).1; subst e; simp at this
+  · intro l hl; exact (lineOK_spec l (h1 l hl).2).1
+  · intro l hl; exact (lineOK_spec l (h1 l hl).2).2
+  · simpa using h3
+  · intro k hk hk0
+    have := h4 k hk
+    simp only [Bool.or_eq_true, beq_iff_eq] at this
+    rcases this with e | e
+    · exact absurd e hk0
+    · exact e
+
+theorem expand_append (a b : Form) : expand (a ++ b) = expand a ++ expand b := by
+  simp [expand, List.flatMap_append]
+
+theorem lines_expand_append : ∀ (f : Form) (rest : Content), (∀ l ∈ f, NL ∉ l) →
+    lines (expand f ++ rest) = f ++ lines rest := by
+  intro f
+  induction f with
+  | nil => intro rest _; simp [expand]
+  | cons l f ih =>
+    intro rest h
+    have hl := h l (by simp)
+    have := ih rest (fun x hx => h x (by simp [hx]))
+    simp only [expand, List.flatMap_cons, List.append_assoc, List.singleton_append] at this ⊢
+    rw [List.cons_append, lines_append_nl l _ hl, this]
+    simp
+
+theorem leLines_skip (st : LoadSt) (more : List Content) : leLines st ([] :: more) = leLines st more := by
+  simp [leLines, leLine]
+
+theorem leLines_form (f : Form) (hf : StashSpec f) (out : List Form) (more : List Content) :
+    ∀ (suf pre : Form), pre ++ suf = f → suf ≠ [] →
+      leLines ⟨expand pre, pre, out⟩ (suf ++ more) = leLines ⟨[], [], out ++ [f]⟩ more := by
+  intro suf
+  induction suf with
+  | nil => intro pre _ h; exact absurd rfl h
+  | cons l suf ih =>
+    intro pre hpre _
+    have hlf : l ∈ f := by rw [← hpre]; simp
+    have hne : l ≠ [] := hf.lineNe l hlf
+    have hp : pieces TAB l = [l] := pieces_notin TAB l (hf.noTab l hlf)
+    obtain ⟨c, cs, hl⟩ : ∃ c cs, l = c :: cs := by
+      cases l with
+      | nil => exact absurd rfl hne
+      | cons c cs => exact ⟨c, cs, rfl⟩
+    have hbuf : expand pre ++ expand [l] = expand (pre ++ [l]) := (expand_append pre [l]).symm
+    cases suf with
+    | nil =>
+      have hfl : pre ++ [l] = f := by simpa using hpre
+      have hw : full (expand (pre ++ [l])) = some true := by rw [hfl]; exact hf.whole
+      simp only [List.cons_append, List.nil_append, leLines]
+      have : leLine ⟨expand pre, pre, out⟩ l = some ⟨[], [], out ++ [f]⟩ := by
+        subst hl
+        simp only [leLine]
+        rw [hp, hbuf, hw, hfl]
+      rw [this]
+    | cons l2 suf2 =>
+      have hlen : (pre ++ [l]).length < f.length := by
+        rw [← hpre]; simp
+      have htake : f.take (pre ++ [l]).length = pre ++ [l] := by
+        rw [← hpre]
+        have : pre ++ l :: l2 :: suf2 = (pre ++ [l]) ++ (l2 :: suf2) := by simp
+        rw [this, List.take_left']
+        rfl
+      have hpart : full (expand (pre ++ [l])) = some false := by
+        have := hf.proper (pre ++ [l]).length hlen (by simp)
+        rwa [htake] at this
+      have hstep : leLine ⟨expand pre, pre, out⟩ l = some ⟨expand (pre ++ [l]), pre ++ [l], out⟩ := by
+        subst hl
+        simp only [leLine]
+        rw [hp, hbuf, hpart]
+      have := ih (pre ++ [l]) (by simpa using hpre) (by simp)
+      simp only [List.cons_append, leLines, hstep] at this ⊢
+      exact this
+
+theorem leLines_stashEnc (f : Form) (hf : stashOK f = true) (out : List Form) (rest : Content) :
+    leLines ⟨[], [], out⟩ (lines (stashEnc f ++ rest)) = leLines ⟨[], [], out ++ [f]⟩ (lines rest) := by
+  have sp := stashOK_spec f hf
+  unfold stashEnc
+  have : expand f ++ [NL] ++ rest = expand f ++ (NL :: rest) := by simp
+  rw [this, lines_expand_append f _ sp.noNL]
+  have h0 : lines (NL :: rest) = [] :: lines rest := by simp [lines]
+  rw [h0]
+  have := leLines_form f sp out ([] :: lines rest) f [] (by simp) sp.ne
+  simp only [expand, List.flatMap_nil] at this
+  rw [this, leLines_skip]
+
+theorem leLines_tabAppend (f : Form) (hf : stashOK f = true) (out : List Form) (rest : Content) :
+    leLines ⟨[], [], out⟩ (lines (tabAppend f ++ rest)) = leLines ⟨[], [], out ++ [f]⟩ (lines rest) := by
+  have sp := stashOK_spec f hf
+  obtain ⟨a, r, hfa⟩ : ∃ a r, f = a :: r := by
+    cases f with
+    | nil => exact absurd rfl sp.ne
+    | cons a r => exact ⟨a, r, rfl⟩
+  have hnl : NL ∉ joinTab f := by
+    intro hm
+    rcases joinTab_mem f NL hm with e | ⟨l, hl, hx⟩
+    · exact absurd e (by decide)
+    · exact sp.noNL l hl hx
+  have hta : tabAppend f = joinTab f ++ [NL] := by subst hfa; rfl
+  have : tabAppend f ++ rest = joinTab f ++ NL :: rest := by rw [hta]; simp
+  rw [this, lines_append_nl _ _ hnl]
+  have hj : joinTab f ≠ [] := by
+    subst hfa
+    have hane : a ≠ [] := sp.lineNe a (by simp)
+    cases r with
+    | nil => simpa [joinTab] using hane
+    | cons b r' => simp [joinTab, hane]
+  obtain ⟨c, cs, hc⟩ : ∃ c cs, joinTab f = c :: cs := by
+    cases h : joinTab f with
+    | nil => exact absurd h hj
+    | cons c cs => exact ⟨c, cs, rfl⟩
+  have hp : pieces TAB (joinTab f) = f := pieces_joinTab f sp.ne sp.noTab
+  simp only [leLines]
+  have : leLine ⟨[], [], out⟩ (joinTab f) = some ⟨[], [], out ++ [f]⟩ := by
+    rw [hc]
+    simp only [leLine]
+    rw [← hc, hp]
+    simp [sp.whole]
+  rw [this]
 
 end SlipVerif.History
